@@ -64,8 +64,9 @@ type Runner struct {
 	counter   map[string]int // per-scenario counters (j-th call of an action etc.)
 	curTop    int            // id of the property-function invocation in progress
 	curCtxs   *[]ctxRef
-	lastCtxs  []ctxRef // contexts of the last finished property-function invocation
-	firstFail int      // id of the first invocation that signalled a failure (0 = none yet)
+	lastCtxs  []ctxRef          // contexts of the last finished property-function invocation
+	firstFail int               // id of the first invocation that signalled a failure (0 = none yet)
+	async     []*sync.WaitGroup // goroutines started with goasync and not yet joined
 }
 
 // A barrier holds goroutines at a named gate of rapid (hook verifAt) until n of them have arrived
@@ -358,6 +359,10 @@ func (in *inv) step(op *Op) {
 		id := r.cleanID
 		r.mu.Unlock()
 		body := op.Body
+		if in.quiet {
+			t.Cleanup(func() {})
+			break
+		}
 		r.rec.Emit("cleanup.reg", F{"inv": in.id, "id": id, "g": in.g})
 		t.Cleanup(func() {
 			r.rec.Emit("cleanup.run", F{"inv": in.id, "id": id})
@@ -424,6 +429,34 @@ func (in *inv) step(op *Op) {
 		}
 		close(start)
 		wg.Wait()
+	case "goasync": // goroutines that keep running while the property goes on (and while its cleanups run); "join" waits for them
+		n := op.N
+		if n == 0 {
+			n = 1
+		}
+		wg := &sync.WaitGroup{}
+		r.mu.Lock()
+		r.async = append(r.async, wg)
+		r.mu.Unlock()
+		for g := 0; g < n; g++ {
+			wg.Add(1)
+			g := g
+			go func() {
+				defer wg.Done()
+				sub := &inv{r: r, t: t, id: in.id, top: in.top, vars: in.vars, ctxs: in.ctxs, g: g + 1, quiet: op.Text == "quiet"}
+				for rep := 0; rep < 1+op.Ms; rep++ {
+					sub.run(op.Body)
+				}
+			}()
+		}
+	case "join":
+		r.mu.Lock()
+		ws := r.async
+		r.async = nil
+		r.mu.Unlock()
+		for _, wg := range ws {
+			wg.Wait()
+		}
 	case "sleep":
 		time.Sleep(time.Duration(op.Ms) * time.Millisecond)
 	case "nth": // body on the N-th execution of this op within the current run, else the other branch: a property that is NOT a function of its draws
